@@ -152,6 +152,14 @@ func runJob(job *Job) *Result {
 		if c == nil {
 			c = eng.Gen(job)
 		}
+		for i := range c.PriorJobs {
+			pj := c.PriorJobs[i]
+			if pe := engines[pj.Prop]; pe != nil {
+				pj.Case, pj.Sample = nil, false
+				pe.Exec(pe.Gen(&pj), &pj)
+				raceDelta()
+			}
+		}
 		res := eng.Exec(c, job)
 		res.ID, res.Seed = job.ID, c.Seed
 		if res.Verdict == "" {
